@@ -8,11 +8,14 @@ set_option linter.unusedSimpArgs false
 namespace Frappy.Update
 open Frappy.Spec.C05
 
-variable {V E : Type} [DecidableEq E]
+variable {V E X : Type} [DecidableEq E]
 
 /-- the assumption under which "unchanged" means "identical": values that Python's `!=` does not
 tell apart are the same value (they have the same exported form) -/
-def EqExact (o : Oracle V E) : Prop := ∀ a b, o.veq a b = true → a = b
+def ExportExact (o : Oracle V E) (ex : V → X) : Prop := ∀ a b, o.veq a b = true → ex a = ex b
+
+/-- special case: the values themselves -/
+def EqExact (o : Oracle V E) : Prop := ExportExact o (fun v => v)
 
 @[simp] theorem ve_commit (e : Entry V E) (now : Int) (r : VE V E) :
     (commit (storeValue e r) now r).ve = r := by
@@ -27,35 +30,38 @@ def EqExact (o : Oracle V E) : Prop := ∀ a b, o.veq a b = true → a = b
   cases r <;> simp [commit, storeValue, storeError, stamp]
 
 /-- a suppressed call leaves the value-or-error of the entry as it was -/
-theorem ve_suppressed (o : Oracle V E) (h : EqExact o) (e : Entry V E) (now : Int) (r : VE V E)
-    (hd : emits o e now r = false) : (storeValue e r).ve = e.ve := by
+theorem ve_suppressed (o : Oracle V E) (ex : V → X) (h : ExportExact o ex) (e : Entry V E) (now : Int) (r : VE V E)
+    (hd : emits o e now r = false) : (storeValue e r).ve.map ex = e.ve.map ex := by
   cases r with
   | err x => rfl
   | val v =>
     simp only [emits, changed, Bool.or_eq_false_iff, Bool.not_eq_false', Bool.not_eq_eq_eq_not,
       Bool.not_true] at hd
-    have hv : e.value = v := h _ _ hd.1.1
+    have hv : ex e.value = ex v := h _ _ hd.1.1
     have hr : e.readerror = none := by
       cases hre : e.readerror with
       | none => rfl
       | some x => have := hd.1.2; simp [hre] at this
-    simp [storeValue, Entry.ve, hr, hv]
+    simp [storeValue, Entry.ve, hr, hv, VE.map]
 
 /-- timestamp and window of a suppressed call are untouched -/
 theorem ts_suppressed (e : Entry V E) (r : VE V E) : (storeValue e r).timestamp = e.timestamp := by
   cases r <;> rfl
 
+/-- the newest message if there is one, else what was known -/
+def pick {S M : Type} (f : M → S) (k : S) : Option M → S
+  | some m => f m
+  | none => k
+
 /-- the central fact: after a call the entry's value-or-error is the emitted message's, or the old one -/
-theorem announceR_ve (o : Oracle V E) (h : EqExact o) (e : Entry V E) (now : Int) (r : VE V E) :
-    (announceR o e now r).entry.ve =
-      match (announceR o e now r).msg with
-      | some m => m.ve
-      | none => e.ve := by
+theorem announceR_ve (o : Oracle V E) (ex : V → X) (h : ExportExact o ex) (e : Entry V E) (now : Int) (r : VE V E) :
+    (announceR o e now r).entry.ve.map ex =
+      pick (fun m => m.ve.map ex) (e.ve.map ex) (announceR o e now r).msg := by
   unfold announceR
   by_cases hd : emits o e now r = true
-  · simp [hd, mkMsg]
+  · simp [hd, mkMsg, pick]
   · simp only [Bool.not_eq_true] at hd
-    simp [hd, ve_suppressed o h e now r hd]
+    simp [hd, ve_suppressed o ex h e now r hd, pick]
 
 /-- a message is exactly the entry at its emission: state and time stamp -/
 theorem announceR_msg (o : Oracle V E) (e : Entry V E) (now : Int) (r : VE V E) (m : Msg V E)
@@ -104,33 +110,27 @@ theorem runR_snoc (o : Oracle V E) (e : Entry V E) (xs : List (REv V E)) (x : RE
   rw [runR_append]; simp [runR]
 
 /-- observation of one call, as the specification sees it -/
-def obsOf (out : Out V E) : Obs (VE V E) := ⟨(out.msg.toList).map (·.ve), out.entry.ve⟩
+def obsOf (ex : V → X) (out : Out V E) : Obs (VE X E) :=
+  ⟨(out.msg.toList).map (fun m => m.ve.map ex), out.entry.ve.map ex⟩
 
-theorem msgs_eq_trace (o : Oracle V E) (e : Entry V E) (xs : List (REv V E)) :
-    (runR o e xs).msgs.map (·.ve) = allMsgs ((traceR o e xs).map obsOf) := by
-  induction xs generalizing e with
-  | nil => simp [runR, traceR, allMsgs]
-  | cons x xs ih =>
-    simp only [runR, traceR, List.map_append, ih, allMsgs, List.map_cons, List.flatMap_cons, obsOf]
-
-theorem replay_toList (k : VE V E) (om : Option (Msg V E)) :
-    replay k ((om.toList).map (·.ve)) = match om with | some m => m.ve | none => k := by
-  cases om <;> simp [replay]
+theorem replay_toList {S M : Type} (f : M → S) (k : S) (om : Option M) :
+    replay k ((om.toList).map f) = pick f k om := by
+  cases om <;> simp [replay, pick]
 
 theorem replay_append {S : Type} (k : S) (a b : List S) : replay k (a ++ b) = replay (replay k a) b := by
   simp [replay, List.foldl_append]
 
 
 /-- replaying the messages of a run gives the final entry's value-or-error -/
-theorem replay_runR (o : Oracle V E) (h : EqExact o) (e : Entry V E) (xs : List (REv V E)) :
-    replay e.ve ((runR o e xs).msgs.map (·.ve)) = (runR o e xs).entry.ve := by
+theorem replay_runR (o : Oracle V E) (ex : V → X) (h : ExportExact o ex) (e : Entry V E) (xs : List (REv V E)) :
+    replay (e.ve.map ex) ((runR o e xs).msgs.map (fun m => m.ve.map ex)) = (runR o e xs).entry.ve.map ex := by
   induction xs generalizing e with
   | nil => simp [runR, replay]
   | cons x xs ih =>
     simp only [runR, List.map_append, replay_append, replay_toList]
     rw [← ih]
     congr 1
-    rw [announceR_ve o h]
+    rw [announceR_ve o ex h]
 
 /-! ### the monitor decides the specification -/
 
